@@ -1216,9 +1216,6 @@ func (e *Exec) idxElemT(idx *Term, bytes bool) pathElem {
 	if idx.op == OpConst {
 		return pathElem{i: int(idx.val)}
 	}
-	if !bytes {
-		e.unsupported("symbolic index into non-byte array")
-	}
 	return pathElem{sym: idx}
 }
 
